@@ -94,6 +94,12 @@ impl Ctx {
         hex_or_dash(tok)
     }
     fn tok_bytes(&self, s: &str) -> Option<Vec<u8>> {
+        // `<spec>+<hex>`: the token `<spec>` stands for, followed by further bytes (not a token of this node)
+        if let Some((base, ext)) = s.split_once('+') {
+            let mut t = self.tok_bytes(base)?;
+            t.extend(unhex(ext)?);
+            return Some(t);
+        }
         if let Some(n) = s.strip_prefix('I') {
             let n: usize = n.parse().ok()?;
             // the n-th token handed out in a get_peers reply; junk if there is none yet
@@ -503,7 +509,20 @@ impl Engine for HandlerEngine {
             let want = *rng.pick(&["none", "none", "n4", "n6", "both"]);
             let target = if rng.chance(1, 4) { hex(&me) } else if !contacts.is_empty() && rng.chance(1, 3) { rng.pick(&contacts).0.clone() } else { hex(&rng.bytes(20)) };
             match rng.below(20) {
-                0..=1 => ops.push(format!("in {tid} {src} q ping id={sid} @{t}")),
+                0..=1 => {
+                    ops.push(format!("in {tid} {src} q ping id={sid} @{t}"));
+                    // ... followed by a cut-off copy of the same datagram: undecodable, nothing may happen (round-5 seed
+                    // C03: a receive buffer kept between datagrams completed a truncated one with the tail of its predecessor)
+                    if rng.chance(1, 3) {
+                        let w: Vec<String> = format!("q ping t={} id={sid}", hex_or_dash(&unhex(tid.trim_start_matches('x')).unwrap_or_default())).split_whitespace().map(|x| x.to_string()).collect();
+                        let wr: Vec<&str> = w.iter().map(|x| x.as_str()).collect();
+                        if let Some(m) = crate::msgtext::text_to_msg(&wr) {
+                            let b = crate::msgtext::bep_tree(&m).to_bytes();
+                            let k = rng.range(1, b.len() as u64 - 1) as usize;
+                            ops.push(format!("inraw {} {src} @{t}", hex(&b[..k])));
+                        }
+                    }
+                }
                 2..=4 => ops.push(format!("in {tid} {src} q find_node id={sid} target={target} want={want} @{t}")),
                 5..=8 => {
                     ops.push(format!("in {tid} {src} q get_peers id={sid} info_hash={} want={want} @{t}", rng.pick(&ihs)));
@@ -520,9 +539,12 @@ impl Engine for HandlerEngine {
                         let k = rng.below(4);
                         let tpre = if rng.chance(2, 3) { format!("I{j}#") } else { tpre };
                         let s2 = if rng.chance(1, 5) { src.clone() } else if rng.chance(1, 3) { let mut p: Vec<&str> = s.split(':').collect(); let np = "9999"; p[2] = np; p.join(":") } else { s };
-                        (s2, if let Some(i) = tpre.strip_suffix('#') { i.to_string() } else { format!("{tpre}{k}") })
+                        let spec = if let Some(i) = tpre.strip_suffix('#') { i.to_string() } else { format!("{tpre}{k}") };
+                        // a valid token followed by further bytes is not a token of this node (round-5 seed C06)
+                        (s2, if rng.chance(1, 8) { let l = *rng.pick(&[1usize, 1, 20]); format!("{spec}+{}", hex(&rng.bytes(l))) } else { spec })
                     } else {
-                        let l = *rng.pick(&[0usize, 19, 20, 21, 40]);
+                        // junk of any length a request can carry (round-5 seed C17: the refused token echoed in the error)
+                        let l = *rng.pick(&[0usize, 19, 20, 21, 40, 700, 1000, 1300]);
                         (src.clone(), hex_or_dash(&rng.bytes(l)))
                     };
                     // the explicit port equal to the source port: the same contact as with an implied port
